@@ -24,17 +24,25 @@ _SKIP_LOC = ("libsanitizer", "/libc.so", "/libasan", "sysdeps/", "nptl/", "stdli
              "libio/", "assert/", "/libubsan", "stdio-common/", "malloc/")
 
 
-def resource_verdict(etext):
-    """ASan deaths that are resource exhaustion, not memory-safety reports."""
+RESOURCE_BUGS = ("allocation-size-too-big", "out-of-memory", "calloc-overflow", "requested",
+                 "failed", "rss-limit-exceeded", "pvalloc-overflow", "reallocarray-overflow",
+                 "invalid-allocation-alignment")
+
+
+def resource_verdict(etext, rc, sig):
+    """deaths caused by the sanitizer runtime running out of memory (not memory-safety
+    reports, not the tool's own orderly 'memory allocation failed' exit)"""
     if "hard rss limit exhausted" in etext:
         return "rss-limit"
-    if "AddressSanitizer: out of memory" in etext or "failed to allocate" in etext \
-            or "AddressSanitizer: allocator is out of memory" in etext \
-            or "ERROR: AddressSanitizer: allocation-size-too-big" in etext \
-            or "ERROR: AddressSanitizer: requested allocation size" in etext \
-            or "ERROR: AddressSanitizer: calloc parameters overflow" in etext \
-            or "ERROR: AddressSanitizer: out-of-memory" in etext:
-        return "oom"
+    if rc == 99 or sig:
+        for m in ("AddressSanitizer: out of memory", "AddressSanitizer failed to allocate",
+                  "AddressSanitizer: allocator is out of memory", "ERROR: AddressSanitizer: out-of-memory",
+                  "ERROR: AddressSanitizer: allocation-size-too-big",
+                  "ERROR: AddressSanitizer: requested allocation size",
+                  "ERROR: AddressSanitizer: calloc parameters overflow",
+                  "LeakSanitizer has encountered a fatal error", "ReserveShadowMemoryRange failed"):
+            if m in etext:
+                return "oom"
     return None
 
 
@@ -137,10 +145,9 @@ def judge(binary, res, root=None, capped=False, san_exit=99):
             func = hang_frame(san["frames_raw"], root)
         return {"verdict": "timeout", "key_tail": "hang", "hang_func": func,
                 "what": "watchdog expired" + ("; interrupted at:\n" + "\n".join(san["frames"]) if san else "")}
-    rv = resource_verdict(et)
+    rv = resource_verdict(et, res.rc, res.sig)
     san = parse_sanitizer(et, root)
-    if rv and (san is None or san["bug"] in ("allocation-size-too-big", "out-of-memory",
-                                             "requested", "calloc", "failed")):
+    if rv and (san is None or san["bug"] in RESOURCE_BUGS):
         return {"verdict": "inconclusive", "key_tail": "resource " + rv, "what": et[-600:]}
     if san:
         if san["kind"] == "signal":
